@@ -1,4 +1,6 @@
+#[cfg(not(desync_verif))]
 use futures::channel::oneshot;
+#[cfg(desync_verif)] use vsched::oneshot;
 
 ///
 /// The queue resumer is used to resume a queue that was suspended using the `suspend()` function in the scheduler
